@@ -57,6 +57,12 @@ func sceneBindingMsg(op int, o BindOpts) {
 		pre = Binding(k, ctx, "b", Svc, prov, owner, o.NT, o.NV, true)
 		depAcc = depAcc.Add(pre.Deposit)
 	}
+	// the owner may have set a withdrawal address; no binding message may change it
+	wa := owner
+	if vf.Bool("hasWithdrawAddr") {
+		wa = vf.Addr("withdrawAddr", 20)
+		k.SetWithdrawAddress(ctx, owner, wa)
+	}
 	balS := vf.Amount("balSigner")
 	vf.SetBalance(signer, balS)
 	balOwner0 := vf.Balance(owner)
@@ -115,6 +121,7 @@ func sceneBindingMsg(op int, o BindOpts) {
 	depAcc1 := vf.ModuleBalance(types.DepositAccName)
 	balS1 := vf.Balance(signer)
 	// ---- general clauses
+	chk("C13 C05", k.GetWithdrawAddress(ctx, owner).Equals(wa), "withdraw-address-untouched-by-binding-messages")
 	chk("C15", found == vf.Or(present, vf.And(op == opBind, err == nil)), "binding-exists-iff-bound")
 	chk("C05", vf.Implies(vf.And(err == nil, vf.Or(present, owned)), rightful), "only-the-owner-acts")
 	chk("C03 C04", vf.Supply().Equal(supply0), "no-burn-by-binding-messages")
